@@ -133,7 +133,14 @@ class Scenario:
         guids = {gA: '1'}
         # ---------------------------------------------------------------- send (subset, with upload faults)
         sent = rng.sample(paths, rng.randint(1, len(paths)))
-        updec = {p: (rng.choice(['ok', 'ok', 'fail']) if self.faults_enabled else 'ok') for p in sent}
+        def per_address(dec):
+            # duplicates share one object: the upload/download command runs per cache path, so one decision per address
+            seen = {}
+            for p in list(dec):
+                a = rc.rec_addr(oa.recs[p], p) if p in oa.recs else p
+                dec[p] = seen.setdefault(a, dec[p])
+            return dec
+        updec = per_address({p: (rng.choice(['ok', 'ok', 'fail']) if self.faults_enabled else 'ok') for p in sent})
         self.set_faults('up', updec, oa)
         rc_, out, err = A.x(*(cargs + ['file', 'send', '--to', 'st'] + sent))
         self.model('\t'.join(['send', '1'] + [f'{p}={updec[p]}' for p in sent]), self.storage_abs(sdir, guids))
@@ -199,7 +206,7 @@ class Scenario:
             self.obs += [None, None, None]
         ob = Obs(B)
         want = rng.sample(paths, rng.randint(1, len(paths)))
-        dldec = {p: (rng.choice(['ok', 'ok', 'fc', 'fp']) if self.faults_enabled else 'ok') for p in want}
+        dldec = per_address({p: (rng.choice(['ok', 'ok', 'fc', 'fp']) if self.faults_enabled else 'ok') for p in want})
         if self.kind == 'local':
             want = [p for p in want if p in sent] or [sent[0]]       # a missing object makes the whole local receive fail
             dldec = {p: 'ok' for p in want}
@@ -211,7 +218,8 @@ class Scenario:
         rc_, out, err = B.x(*args, env=env)
         rh.Runner.restamp(B, stamps)
         ob2 = Obs(B)
-        eff = {p: (dldec[p] if (p in sent and updec[p] == 'ok') else 'fc') for p in want}
+        stored = {rc.rec_addr(oa.recs[p], p) for p in sent if updec[p] == 'ok'}
+        eff = {p: (dldec[p] if rc.rec_addr(oa.recs[p], p) in stored else 'fc') for p in want}
         self.model('\t'.join(['bring', 'other' if tmp_other else 'same', '1', method or '-'] + [f'{p}={eff[p]}' for p in want]),
                    f"rc={'ok' if rc_ in (0, 1) else 'panic'} " + abstraction(ob2, self.table))
         self.chk.count(f'bring:tmp={"other-fs" if tmp_other else "same-fs"}'); self.chk.count(f'bring:{"same-repo" if same_repo else "clone"}')
